@@ -5,7 +5,7 @@ EXTENDS Engine, Json
 
 Base == [n |-> 1, t |-> 1, shared |-> TRUE, ammo |-> 2, provider |-> "ok", aggregator |-> "ok", warm |-> "none",
          gunFail |-> -1, bindFail |-> -1, schedFail |-> -1, panicInst |-> -1, panicShot |-> -1,
-         closable |-> TRUE, ek |-> "plain", long |-> FALSE, slow |-> FALSE, fault |-> "none", shape |-> "small",
+         closable |-> TRUE, ek |-> "plain", long |-> FALSE, slow |-> FALSE, fault |-> "none", shape |-> "small", block |-> "none",
          kind |-> "ok", cause |-> ""]
 Ok     == Base
 Ok2    == [n |-> 2, t |-> 2, shape |-> "two-instances"] @@ Base
@@ -18,6 +18,10 @@ FailPanic == [kind |-> "fail", cause |-> "panic", panicInst |-> 0, panicShot |->
 FailDrop  == [kind |-> "fail", cause |-> "agg", aggregator |-> "drop", fault |-> "agg-drop-on-cancel"] @@ Base
 FailGun   == [kind |-> "failsync", cause |-> "newgun", gunFail |-> 0, fault |-> "newgun-warmup"] @@ Base
 FailSched == [kind |-> "failsync", cause |-> "sched", schedFail |-> 0, fault |-> "sched-shared"] @@ Base
+\* a pool whose warm-up / shared schedule factory does not return before Engine.Run has returned
+BlockWarm  == [block |-> "warmup", warm |-> "ok", fault |-> "warmup-ok", shape |-> "blocked"] @@ Base
+BlockGun   == [block |-> "newgun-warmup", shape |-> "blocked"] @@ Base
+BlockSched == [block |-> "sched-shared", shape |-> "blocked"] @@ Base
 
 PoolSets == <<
   <<Ok, Ok, Ok>>,                  \* 1  all succeed
@@ -37,7 +41,10 @@ CancelSets == <<
   <<Long, Long, Ok>>,              \* the caller cancels three pools mid-run
   <<Long2, FailAgg, Ok>>,          \* cancel vs pool failure
   <<Long, Slow>>,
-  <<FailGun, Long, Long>>
+  <<FailGun, Long, Long>>,
+  <<BlockWarm, Long, Ok>>,         \* 5  the caller cancels while a pool is inside a warm-up that ignores the ctx: Run returns at once
+  <<Long, BlockSched, Long>>,      \* 6
+  <<BlockGun, BlockWarm>>          \* 7
 >>
 \* ids 6000+: the poolrun driver and TracePoolRun / TraceEngine tell plans apart by id
 PlansNC == { [id |-> 6000 + i, pools |-> PoolSets[i], cancel |-> FALSE] : i \in 1..Len(PoolSets) }
@@ -45,7 +52,9 @@ PlansC  == { [id |-> 6100 + i, pools |-> CancelSets[i], cancel |-> TRUE] : i \in
 AllPlans == PlansNC \cup PlansC
 LivePlans == PlansNC                       \* a cancel is not a fair step; every no-cancel plan ends by itself or by a failure
 ThreeLong == {pl \in PlansNC : pl.id \in {6003, 6008}}
-QuickPlans == {pl \in AllPlans : pl.id \in {6003, 6006, 6012, 6103}}
+BlockPlans == {pl \in PlansC : pl.id \in {6105, 6106, 6107}}
+QuickPlans == {pl \in AllPlans : pl.id \in {6003, 6006, 6012, 6103, 6107}}
+PromptPlans == {pl \in PlansC : pl.id \in {6103, 6104, 6107}}
 TwoFail == {pl \in AllPlans : pl.id \in {6009, 6010}}
 OneThree == {pl \in AllPlans : pl.id = 6006}
 LiveThorough == {pl \in PlansNC : pl.id \in {6001, 6003, 6004, 6006, 6008, 6011, 6012}}
